@@ -1071,7 +1071,8 @@ def extLoop (fx : Fix) (v : Var) (raw : Bytes) : Nat → Nat → Nat → Nat →
         | _, _ => .error .index
     else if nht = 44 then
       -- `(max_length - offset) < LENGTH`; D48: `max_length < LENGTH` (never, 8 ≤ length here) and `len(raw) - offset < LENGTH`
-      if (if v.ip6Clamp then raw.length < offset + 8 else length < offset + 8) then pure none
+      if length < 8 then pure none                                           -- `if length < 8: … return` (every extension header class)
+      else if (if v.ip6Clamp then raw.length < offset + 8 else length < offset + 8) then pure none
       else
         match idx raw offset with
         | .ok nh => extLoop fx v raw fuel nh (offset + 8) (length - 8) (acc ++ [(44, nh, sl raw (offset + 1) (offset + 8))])
